@@ -58,9 +58,12 @@ SPEC_MUTANTS = [("ff", "UseLock", "C02_PollerNoMiss"), ("ff", "DedupLe", "C03_In
                 # (flag None: nothing switched off, the invariant named is added and must be reported)
                 ("future", None, "C03_Complete")]
 
+QUICK_LIVE = ["lim1", "off1", "tail"]
+THOROUGH_LIVE = [c[0] for c in CONFIGS]
+
 TIERS = {
-    "quick": dict(mc=QUICK_MC, sim=40, sim_depth=70, rnd=500, rnd_steps=120, chunk=150, stress=4),
-    "thorough": dict(mc=THOROUGH_MC, sim=400, sim_depth=90, rnd=8000, rnd_steps=200, chunk=500, stress=40),
+    "quick": dict(mc=QUICK_MC, live=QUICK_LIVE, sim=40, sim_depth=70, rnd=500, rnd_steps=120, chunk=150, stress=4),
+    "thorough": dict(mc=THOROUGH_MC, live=THOROUGH_LIVE, sim=400, sim_depth=90, rnd=8000, rnd_steps=200, chunk=500, stress=40),
 }
 
 
@@ -84,12 +87,47 @@ def cfg_text(c, gen=False, flags=None, extra_inv=None):
     return "\n".join(t) + "\n"
 
 
+LIVE_COMMON = "L_WritersFinish L_Settles L_LimitEnds L_NonFollowEnds L_LagEnds L_ThresholdSent"
+# liveness configurations (FairSpec: weak fairness per actor): every fair schedule settles, ends the stream when it is
+# due, completes the poller and the open follower.  quick: the three cheapest; thorough: all
+# liveness spec mutants / vacuity guards: flag switched off -> TLC must report the temporal property
+LIVE_MUTANTS = [("lim3hb", "HbStops", "L_LimitEnds")]
+
+
+def live_cfg_text(c, flags=None):
+    """the same constants under FairSpec with the temporal properties (no VIEW: Gen = FALSE keeps hist empty)"""
+    base = cfg_text(c, flags=flags).splitlines()
+    keep = [l for l in base if not l.startswith(("SPECIFICATION", "VIEW", "INVARIANT", "CHECK_DEADLOCK"))]
+    props = LIVE_COMMON
+    if c[0] not in AHEAD:
+        props += " L_PollerComplete"
+    if "C03_Complete" in c[10]:
+        props += " L_FollowerComplete"
+    if "LostOnlyByKnown" in c[10]:
+        props += " L_FollowerCompleteKnown"
+    return "\n".join(["SPECIFICATION FairSpec"] + keep + [f"PROPERTY {props}", "CHECK_DEADLOCK FALSE"]) + "\n"
+
+
 def write_cfgs():
     for c in CONFIGS:
-        p = os.path.join(SPEC, f"MC_conc_{c[0]}.cfg")
-        t = cfg_text(c)
-        if not os.path.exists(p) or open(p).read() != t:
-            open(p, "w").write(t)
+        for p, t in ((os.path.join(SPEC, f"MC_conc_{c[0]}.cfg"), cfg_text(c)),
+                     (os.path.join(SPEC, f"MC_conc_live_{c[0]}.cfg"), live_cfg_text(c))):
+            if not os.path.exists(p) or open(p).read() != t:
+                open(p, "w").write(t)
+
+
+def check_live_mutants(d):
+    res = []
+    for cname, flag, prop in LIVE_MUTANTS:
+        c = [x for x in CONFIGS if x[0] == cname][0]
+        cfgp = os.path.join(d, f"livemut_{cname}_{flag}.cfg")
+        open(cfgp, "w").write(live_cfg_text(c, flags={flag: False}))
+        out, _, _, _ = tlc("MCXsConcurrent.tla", cfgp, workers=8, timeout=1200)
+        caught = "Temporal properties were violated" in out
+        res.append({"cfg": cname, "flag": flag, "property": prop, "caught": caught})
+        if not caught:
+            raise ToolError(f"liveness spec mutant {cname}/{flag} not caught: the temporal properties are vacuous")
+    return res
 
 
 def scenario_of(c, s, seed, sched=None, random_steps=0):
@@ -167,10 +205,12 @@ def run(tier, seed):
     write_cfgs()
     res = {"group": "conc", "tier": tier, "seed": seed}
     res["mc"] = [model_check("MCXsConcurrent.tla", f"MC_conc_{n}.cfg") for n in cfg["mc"]]
+    res["live"] = [model_check("MCXsConcurrent.tla", f"MC_conc_live_{n}.cfg", workers=6) for n in cfg["live"]]
     d = scratch("conc")
     try:
         if tier == "thorough":
             res["spec_mutants"] = check_spec_mutants(d)
+            res["live_mutants"] = check_live_mutants(d)
         rng = random.Random(seed)
         scs = []
         s = 0
